@@ -79,9 +79,11 @@ def gen_ops(rng, n):
         if c < 4:
             ops.append(['K', rng.randrange(2), slot, gen_key(rng), int(rng.random() < 0.6)])
         elif c < 6:
-            ops.append(['B', rng.randrange(2), slot, gen_key(rng).to_bytes(16, 'big').hex(), int(rng.random() < 0.6)])
+            # byte-string keys in the three spellings Python has for them: bytes, bytearray, memoryview
+            ops.append(['B', rng.randrange(2), slot, gen_key(rng).to_bytes(16, 'big').hex(), int(rng.random() < 0.6), rng.choice([0, 0, 1, 2])])
         elif c < 8:
-            ops.append(['N', slot, pyenv.rbytes(rng, 16).hex()])
+            # ... a bytearray handed in as normal key is changed by the caller right afterwards: the engine holds what it was given then
+            ops.append(['N', slot, pyenv.rbytes(rng, 16).hex(), rng.choice([0, 0, 1])])
         else:
             ops.append(['R'])
     return ops
@@ -122,9 +124,17 @@ def apply_impl(e, op):
     if op[0] == 'K':
         e.set_keyslot('x' if op[1] else 'y', op[2], op[3], update_normal_key=bool(op[4]))
     elif op[0] == 'B':
-        e.set_keyslot('x' if op[1] else 'y', op[2], bytes.fromhex(op[3]), update_normal_key=bool(op[4]))
+        spell = op[5] if len(op) > 5 else 0
+        key = bytes.fromhex(op[3])
+        e.set_keyslot('x' if op[1] else 'y', op[2], key if spell == 0 else bytearray(key) if spell == 1 else memoryview(key), update_normal_key=bool(op[4]))
     elif op[0] == 'N':
-        e.set_normal_key(op[1], bytes.fromhex(op[2]))
+        if len(op) > 3 and op[3]:
+            ba = bytearray.fromhex(op[2])
+            e.set_normal_key(op[1], ba)
+            ba[0] ^= 0xFF
+            ba[15] ^= 0x01
+        else:
+            e.set_normal_key(op[1], bytes.fromhex(op[2]))
     else:
         e.update_normal_keys()
 
@@ -193,8 +203,9 @@ def first_diff(a, b):
 
 
 def fmt(t):
-    return None if t is None else [None if t[0] is None else hex(t[0]), None if t[1] is None else hex(t[1]),
-                                    None if t[2] is None else t[2].hex()]
+    def h(v):
+        return None if v is None else hex(v) if isinstance(v, int) else repr(v)
+    return None if t is None else [h(t[0]), h(t[1]), None if t[2] is None else bytes(t[2]).hex()]
 
 
 def engine_case(ctx, mr, rng, case):
@@ -208,6 +219,20 @@ def engine_case(ctx, mr, rng, case):
         e = CryptoEngine(dev=dev, setup_b9_keys=False)
     init = init_ops(e)
     init_dump = dump_engine(e)
+    # file wrappers made BEFORE the key operations: a wrapper is bound to the engine and the slot, not to the key the slot held (or
+    # lacked) when it was made
+    import io as _io
+    early = {}
+    for slot in sorted({o[2] for o in ops if o[0] in ('K', 'B')} | {o[1] for o in ops if o[0] == 'N'} | ({0x40} if any(o[0] == 'T' for o in ops) else set()))[:4]:
+        ectr = rng.getrandbits(100)
+        eiv = pyenv.rbytes(rng, 16)
+        early[slot] = (ectr, eiv, e.create_ctr_io(slot, _io.BytesIO(b'\0' * 32), ectr), e.create_cbc_io(slot, _io.BytesIO(b'\0' * 32), eiv))
+        if rng.random() < 0.5:
+            for w in early[slot][2:]:
+                try:
+                    w.read(16)              # a first look at the file under whatever the slot holds now
+                except Exception:
+                    pass
     err = None
     try:
         for op in ops:
@@ -215,6 +240,11 @@ def engine_case(ctx, mr, rng, case):
     except Exception as ex:  # no key operation may raise
         err = pyenv.errname(ex)
     got = dump_engine(e)
+    odd = [(s_, t) for s_, t in enumerate(got) if not all(v is None or isinstance(v, int) for v in t[:2])]
+    if odd:
+        ctx.diff('oracle', 'keyslot-type', case, 'integers as X and Y keys', fmt(odd[0][1]), f'slot {odd[0][0]:#x}: a byte-string key was stored as it came '
+                 'instead of being read as an integer (the next key operation on the slot fails)' + (f'; then {err}' if err else ''))
+        return
     prim = []
     spec = spec_machine(init_dump, ops, dev, prim)
     model = parse_dump(mr.ask('engine ' + ' '.join(op_line(o) for o in init + prim)))
@@ -273,6 +303,28 @@ def engine_case(ctx, mr, rng, case):
                          expected.hex() if isinstance(expected, bytes) else expected,
                          res.hex() if isinstance(res, bytes) else res,
                          f'{kind} factory for slot {slot:#x} does not use the slot\'s normal key / wrong error')
+    for slot, (ectr, eiv, fctr, fcbc) in early.items():
+        want = spec[slot][2]
+        for kind, f in (('ctrio', fctr), ('cbcio', fcbc)):
+            ctx.stat('early_wrapper_probes')
+            try:
+                f.seek(0)
+                res = f.read(16)
+            except KeyslotMissingError:
+                res = 'KeyslotMissingError'
+            except Exception as ex:
+                res = pyenv.errname(ex)
+            if want is None:
+                expected = 'KeyslotMissingError'
+            elif kind == 'ctrio':
+                ks = AES.new(want, AES.MODE_ECB).encrypt(ectr.to_bytes(16, 'big'))
+                expected = ks if slot >= 4 else ks[::-1]
+            else:
+                expected = AES.new(want, AES.MODE_CBC, eiv).decrypt(b'\0' * 16)
+            if res != expected:
+                ctx.diff('oracle', f'early-wrapper-{kind}', dict(case, slot=slot, factory=kind),
+                         expected.hex() if isinstance(expected, bytes) else expected, res.hex() if isinstance(res, bytes) else res,
+                         f'{kind} wrapper for slot {slot:#x} made before the key operations does not read under the normal key the slot holds now')
     # clone isolation, both directions, however the engine was built
     ctx.stat('clone_probes')
     try:
@@ -302,8 +354,11 @@ def engine_case(ctx, mr, rng, case):
         ctx.diff('oracle', 'clone-aliasing', dict(case, more=more), 'original unchanged', 'original changed',
                  'operations on the clone changed the original engine')
     before_c = dump_engine(c)
-    for op in gen_ops(rng, 6):
-        apply_impl(e, op)
+    try:
+        for op in gen_ops(rng, 6):
+            apply_impl(e, op)
+    except Exception as ex:
+        ctx.diff('oracle', 'engine-op-raises:' + pyenv.errname(ex), case, 'no exception', pyenv.errname(ex), f'key operation raised {pyenv.errname(ex)}')
     if dump_engine(c) != before_c:
         ctx.diff('oracle', 'clone-aliasing', dict(case, more=more), 'clone unchanged', 'clone changed',
                  'operations on the original changed the clone')
